@@ -32,7 +32,7 @@ PROPS['C19'] = dict(
 )
 
 PROPS['C01'] = dict(
-    level_text='Theorems state that on every trie reachable by any subscribe/unsubscribe history a Walk reports exactly the data stored under the filters that MQTT-match the topic (mmatch), independent of the other filters; the Go trie is tied to the model exhaustively for <=3/4 levels over {a,b,c,+,#,""} and by seeded histories.',
+    level_text='Theorems state that on every trie reachable by any subscribe/unsubscribe history a Walk reports exactly the data stored under the filters that MQTT-match the topic (mmatch), independent of the other filters; the Go trie is tied to the model exhaustively for <=3/4 levels over {a,b,c,+,#,""} and by seeded histories. Over the whole step (Proofs/StepFacts.v): from every quiescent, fault-free cluster state a QoS 0/1 PUBLISH yields Distribute\'s appends, the acknowledgement, the keep-alive re-arm and then, node by node, exactly the writer\'s sends for that log entry to the local ByPattern recipients of the publisher\'s destination nodes, and nothing else.',
     level_note='Trusted: Coq kernel + vm_compute; harness/emitter/evaluator. Topics with a # level are outside the theorem (MQTT forbids them in PUBLISH).',
     theorems=['walk_matches', 'reachable_tries_wf', 'walk_history_spec', 'match_independent', 'deliver_exact', 'deliver_to_no_other', 'by_pattern_exact', 'by_pattern_once', 'publish_step_writes_exactly', 'publish_step_writes_exactly_q0'],
     families=[dict(name='tries', corr='Tries', runs=[('x01', 1, 1), ('rsub', 300, 5000)]),
@@ -80,7 +80,7 @@ PROPS['C08'] = dict(
 )
 PROPS['C09'] = dict(
     theorems=['broadcast_complete_step','receiver_equals_origin'],
-    level_text='Theorems: for each of the nine mutators (bulk DeletePeer/DeleteSession included) merging the single broadcast it queues into a replica with the same entries yields the entries the node now holds, and nothing changes locally without a broadcast; by induction a second node merging the broadcasts of any operation sequence holds the same entries. Tied to the Go code by seeded operation sequences on a real replica whose decoded broadcasts, visible lists and those of two receivers (in order; shuffled with duplicates) are compared with the model and the LWW oracle.',
+    level_text='Theorems: for each of the nine mutators (bulk DeletePeer/DeleteSession included) merging the single broadcast it queues into a replica with the same entries yields the entries the node now holds, and nothing changes locally without a broadcast; by induction a second node merging the broadcasts of any operation sequence holds the same entries. Tied to the Go code by seeded operation sequences on a real replica whose decoded broadcasts, visible lists and those of two receivers (in order; shuffled with duplicates) are compared with the model and the LWW oracle. The harness also runs a shadow origin whose memberlist queue is drained only at the end of the script, so that broadcasts meet each other in the queue (Invalidates / names); its receiver must list what the origin lists.',
     level_note='Premise clock_fresh: the clock reading exceeds the timestamps of the session entries an operation replaces (sessions are written unconditionally by the code). Trusted: Coq kernel + vm_compute; harness, emitter, evaluator.',
     families=[dict(name='crdt', corr='DState', runs=[('bcast', 300, 5000)])],
     rule=_CRDT_RULE,
@@ -118,7 +118,7 @@ PROPS['C07'] = dict(
     families=[dict(name='tries', corr='Tries', runs=[('x07', 1, 1), ('rtop', 300, 5000)]),
               dict(name='crdt', corr='DState', runs=[('retained', 250, 4000)]),
               dict(name='broker', corr='Broker', runs=[('retained', 32, 400)], par=8)],
-    level_text='Theorems (store level): a Match on the retained trie returns exactly the non-empty values under the topics the filter matches after any insert/remove history; after any operation history the entry of a topic is decided by the last retained publish or clear on that topic alone (other topics, prefixes included, do not matter); Get(filter) lists exactly the added entries of matching topics, each topic once; the store replicates as an LWW map. Tied to the Go code by the exhaustive filter x topic scope on topics.Store, seeded trie histories, and seeded set/clear/Get histories through distributed Topics() on two replicas with shuffled, duplicated gossip.',
+    level_text='Theorems (store level): a Match on the retained trie returns exactly the non-empty values under the topics the filter matches after any insert/remove history; after any operation history the entry of a topic is decided by the last retained publish or clear on that topic alone (other topics, prefixes included, do not matter); Get(filter) lists exactly the added entries of matching topics, each topic once; the store replicates as an LWW map. Tied to the Go code by the exhaustive filter x topic scope on topics.Store, seeded trie histories, and seeded set/clear/Get histories through distributed Topics() on two replicas with shuffled, duplicated gossip. Over whole steps: a SUBSCRIBE writes the SUBACK and then exactly Get\'s messages per filter on the session\'s connection (also for a filter the session already holds); a retained PUBLISH writes the store without touching subscriptions and its live copies are unflagged.',
     level_note='Trusted: Coq kernel + vm_compute; harness, emitter, evaluator. The replay to a new subscriber after SUBACK, the retain flag on the replayed copy and the unflagged live copy are exercised end-to-end by the broker families; filters with a non-final # are excluded (MQTT calls them invalid; topics.match treats a # level as "everything below" wherever it stands).',
     rule='x07: every filter of <=3 levels over {a,b,+,#,""} against all 39 topics of <=3 levels over {a,b,""}; rtop: seeded insert/remove/match histories; retained: 2-29 set/clear operations over 8 topics with shared prefixes and empty levels, replicated shuffled with duplicates, 16+ Get queries with filters of <=3 levels over {a,b,c,+,#,""}.',
 )
@@ -129,11 +129,11 @@ def _broker(runs):
     return dict(name='broker', corr='Broker', runs=runs, par=8)
 
 PROPS['C02'] = dict(theorems=['acked_implies_stored', 'nothing_skipped', 'stored_entry_delivered', 'delivered_only_to_recipients', 'qos_recipient_is_written', 'acknowledged_publish_reaches_subscribers', 'initial_state_has_caught_up', 'consumers_catch_up_in_every_step'],
-    level_text="Theorems (node model): the acknowledgement is emitted only after every destination log accepted the message; the log consumer hands every stored entry, offset 0 included, to the writer; a stored entry is written with topic and payload intact to exactly the recipients in the registry. Tied to the Go code by end-to-end scripts on a real node with a real message log (publishers, subscribers, QoS mix, retained clears, a subscriber whose writes fail), compared step by step with the model. Segment rolls and truncation are covered by C15's consumer model and the thorough tier's 520-publish runs.",
+    level_text="Theorems (node model): the acknowledgement is emitted only after every destination log accepted the message; the log consumer hands every stored entry, offset 0 included, to the writer; a stored entry is written with topic and payload intact to exactly the recipients in the registry. Tied to the Go code by end-to-end scripts on a real node with a real message log (publishers, subscribers, QoS mix, retained clears, a subscriber whose writes fail), compared step by step with the model. Segment rolls and truncation are covered by C15's consumer model and the thorough tier's 520-publish runs. Composed over the step: in the acknowledging step every registered session with a matching added subscription on a destination node is sent the message; the premise (every consumer at the end of its log) holds initially and is re-established by every step.",
     level_note=_E2E_NOTE,
     families=[_broker([('pipeline', 40, 400)]), dict(name='crash', corr='Consumer', runs=[('edges', 16, 160)], par=8)], rule='pipeline: 1-3 publishers and subscribers, 1-12 publishes (QoS mix) from the very first log entry on; thorough: every 41st case 520 publishes (segment roll).')
 PROPS['C03'] = dict(theorems=['qos1_retransmit', 'qos2_publish_phase', 'qos2_pubrec_then_pubrel', 'qos2_pubrel_phase', 'completion_frees', 'wrong_ack_harmless', 'retransmitted_every_sweep', 'ended_session_frees_identifier', 'acknowledgement_completes'],
-    level_text='Theorems (node model): an expired QoS 1 PUBLISH / QoS 2 PUBLISH / PUBREL of a live session is written again with the same identifier and re-armed; PUBREC moves a QoS 2 delivery to its PUBREL phase; the completing acknowledgement, or expiry after the session ended, sends nothing and returns the identifier to the pool; an acknowledgement of the wrong type or for an unknown identifier changes nothing. Over histories (Proofs/RetransmitFacts.v): in every reachable cluster state a sweep re-sends every pending delivery of a registered session with the same packet and leaves it pending under the same key and tag, and for an entry of a vanished session it leaves nothing holding the identifier and the pool has it back. Tied to the Go writer and in-flight queue by end-to-end scripts (acknowledge / stay silent for sweeps / wrong type / unknown identifier / session end, interleaved over 1-3 sessions) compared step by step (identifiers masked against the model, their discipline demanded by the oracle of the real values).',
+    level_text='Theorems (node model): an expired QoS 1 PUBLISH / QoS 2 PUBLISH / PUBREL of a live session is written again with the same identifier and re-armed; PUBREC moves a QoS 2 delivery to its PUBREL phase; the completing acknowledgement, or expiry after the session ended, sends nothing and returns the identifier to the pool; an acknowledgement of the wrong type or for an unknown identifier changes nothing. Over histories (Proofs/RetransmitFacts.v): in every reachable cluster state a sweep re-sends every pending delivery of a registered session with the same packet and leaves it pending under the same key and tag, and for an entry of a vanished session it leaves nothing holding the identifier and the pool has it back. Tied to the Go writer and in-flight queue by end-to-end scripts (acknowledge / stay silent for sweeps / wrong type / unknown identifier / session end, interleaved over 1-3 sessions) compared step by step (identifiers masked against the model, their discipline demanded by the oracle of the real values). The in-flight table itself (wasp/ack/queue.go) is compared with its model on random registration / acknowledgement / sweep histories with sub-second deadlines (family ackqueue, as for C04).',
     level_note=_E2E_NOTE,
     families=[_broker([('acks', 64, 800)]), dict(name='ackqueue', corr='AckQueue', runs=[('random', 300, 4000)])], rule='ackqueue random (the in-flight table itself, wasp/ack/queue.go, as for C04: registrations with deadlines on a 250 ms grid around a slowly advancing clock, sweeps at arbitrary instants - an entry whose deadline has passed by the table\'s rounding must fire at the sweep that takes its bucket, or it is never retransmitted); acks: 1-3 sessions subscribed at QoS 1/2, 1-4 messages, per in-flight message the client acknowledges / stays silent for sweeps / answers with the wrong type or an unknown identifier / ends its session, interleaved; then a fresh subscriber shows which identifiers are reusable.')
 PROPS['C05'] = dict(theorems=['stored_iff_reported_ok', 'ack_after_store', 'qos2_never_on_publish_alone', 'qos2_not_again', 'pubrel_forwards_exactly_once'],
@@ -145,15 +145,15 @@ PROPS['C11'] = dict(theorems=['ends_only_for_cause', 'end_leaves_registry', 'end
     level_note=_E2E_NOTE,
     families=[_broker([('lifecycle', 48, 600), ('takeover', 24, 300), ('peerfail', 8, 64)])], rule='lifecycle: 1-2 nodes, sessions with subscribe/unsubscribe/ping/publish ending by DISCONNECT, EOF, read deadline, protocol error or staying connected; refused CONNECTs; listings at the end.')
 PROPS['C12'] = dict(theorems=['teardown_spares_new', 'teardown_keeps_records', 'new_session_established', 'every_node_resolves_new', 'displaced_stops_being_served', 'live_session_is_served'],
-    level_text='Theorems (node model): tearing down a displaced session changes no session record, publishes no will and closes only its own connection. A CONNECT whose identifier is in use (fresh session id, well-formed strings, node clock above the replaced record stamp, identifier resolving to at most one session before) tombstones the old record, stores the new one, registers the session, writes CONNACK 0, and the identifier resolves to exactly the new session on the serving node and on every node that merges the two broadcasts from an agreeing view (composition with C09); a PINGREQ on a session whose identifier resolves elsewhere or to nothing is answered by closing and nothing else, the live one gets PINGRESP with the state unchanged. Validated end-to-end on 1-3 nodes (chains of connections, gossip orders incl. tombstone-before-creation, same identifier in another mount point).',
+    level_text='Theorems (node model): tearing down a displaced session changes no session record, publishes no will and closes only its own connection. A CONNECT whose identifier is in use (fresh session id, well-formed strings, node clock above the replaced record stamp, identifier resolving to at most one session before) tombstones the old record, stores the new one, registers the session, writes CONNACK 0, and the identifier resolves to exactly the new session on the serving node and on every node that merges the two broadcasts from an agreeing view (composition with C09); a PINGREQ on a session whose identifier resolves elsewhere or to nothing is answered by closing and nothing else, the live one gets PINGRESP with the state unchanged. Validated end-to-end on 1-3 nodes (chains of connections, gossip orders incl. tombstone-before-creation, same identifier in another mount point). End to end also under the interleaving inside setup in which the owner of the identifier ends between setup\'s lookup and its removal (script operation raceconnect): the outcome must be that of DISCONNECT followed by CONNECT.',
     level_note=_E2E_NOTE,
     families=[_broker([('takeover', 40, 500), ('takeover3', 32, 240)])], rule='takeover: chains of 2-3 connections sharing a client identifier on 1-2 nodes, old sessions ping/subscribe/disconnect/lose the connection, gossip in between; a connection with the same identifier in another mount point.')
 PROPS['C13'] = dict(theorems=['will_on_unclean_end', 'no_will_after_disconnect', 'no_will_without_lwt', 'will_stored_once_per_destination', 'host_failure_publishes_wills', 'host_failure_is_notice_then_reap', 'noticing_publishes_wills', 'noticing_removes_no_record'],
-    level_text="Theorems (node model): an unclean end hands exactly the will, under the session's mount point, to the publish path once; after DISCONNECT, for a displaced session, and without a will nothing is published. The will is stored at most once per node, at every node hosting a matching subscription known to the publishing node when nothing fails, and at no other; on failure of the hosting node the survivor that notices appends exactly one copy of the will of every session of the failed peer it lists, under that session's mount point, and nothing else. Host failure is also validated end-to-end on 2-3 nodes with watchers on every node and in another mount point.",
+    level_text="Theorems (node model): an unclean end hands exactly the will, under the session's mount point, to the publish path once; after DISCONNECT, for a displaced session, and without a will nothing is published. The will is stored at most once per node, at every node hosting a matching subscription known to the publishing node when nothing fails, and at no other; on failure of the hosting node the survivor that notices appends exactly one copy of the will of every session of the failed peer it lists, under that session's mount point, and nothing else. Host failure is also validated end-to-end on 2-3 nodes with watchers on every node and in another mount point. Host failure is also modelled in the two steps of nodes.go (notice: subscriptions removed, wills published, no session record removed; delayed removal): a second survivor told of the first one's notice before it notices itself still publishes the wills.",
     level_note=_E2E_NOTE,
     families=[_broker([('wills', 24, 300)])], rule='wills: will QoS x retain x topic (empty levels, other tenant name) x ending (EOF, deadline, protocol error, DISCONNECT, host failure with and without prior DISCONNECT) x hosting node, watchers on every node and in another mount point.')
 PROPS['C14'] = dict(theorems=['append_exactly_once', 'remote_delivers_local_only', 'other_nodes_deliver_exactly_once', 'subscriber_on_any_destination_is_reached'],
-    level_text='Theorems (node model): Distribute appends the message at most once per node, exactly once per destination when it reports success, to no node outside the destination set, visiting every destination whatever fails; each node writes a log entry only to registered recipients. Tied to the Go code by 2-3 node scripts over in-process gRPC with every subset of other nodes unreachable.',
+    level_text='Theorems (node model): Distribute appends the message at most once per node, exactly once per destination when it reports success, to no node outside the destination set, visiting every destination whatever fails; each node writes a log entry only to registered recipients. Tied to the Go code by 2-3 node scripts over in-process gRPC with every subset of other nodes unreachable. Over the whole step: every destination node - the publisher\'s own or another - writes exactly one PUBLISH per matching added subscription it hosts for a registered session, no other node writes anything.',
     level_note=_E2E_NOTE,
     families=[_broker([('cluster', 40, 500)])], rule='cluster: 2-3 nodes, 0-2 subscribers per node with filters t/#, t/+, u, publisher on any node, every subset of other nodes unreachable, topics t/a, u, v.')
 
